@@ -91,5 +91,23 @@ def run(rep):
         blocks = self_field_assign_blocks(f, W).get("next", [])
         _expect((reachable_without_edges(f, blocks, re_["ok"]) is None) == want, "A1 advance-after-append on %s" % fn)
     n += 2
+    # A12 linear forms
+    from .affine import Affine, single, upper_bound
+    A = Affine(p)
+    def bound_k(fn):
+        f = p.fn(FX + fn)
+        for cid in p.closures_in(f.id):
+            c = p.fns[cid]
+            for cmp in comparisons(c):
+                fa, fb = single(A.forms_of(c, cmp[2])), single(A.forms_of(c, cmp[3]))
+                if fa is None or fb is None:
+                    continue
+                ub = upper_bound(cmp[1], fa, fb, lambda fm: any(r[2] and r[2][-1] == "tick" for r, k in fm[0]))
+                if isinstance(ub, tuple) and ub[0] == ((("param", 2, ()), 1),):
+                    return ub[2]
+        return None
+    ks = [bound_k("keep_le_plus_one"), bound_k("keep_lt_plus_two"), bound_k("keep_le_plus_two")]
+    _expect(ks == [1, 1, 2], "A12 linear forms normalise the three filter bounds to +1, +1, +2 (got %s)" % ks)
+    n += 1
     rep.note("fixture self-check: %d primitive verdicts matched" % n)
     _done["ok"] = True
